@@ -99,6 +99,7 @@ type c08In struct {
 	Ops   []c08Op          `json:"ops"`
 	Lite  bool             `json:"lite,omitempty"` // (set by the runner) results and error classes only: nothing is observed between the steps
 	Ov    *c08Ov           `json:"ov,omitempty"`   // attempts that overlap in time (c08ov.go); Ops is empty then
+	Q     *c08Q            `json:"q,omitempty"`    // a history in a process with the QUIC flag on (c08q.go); Ops is empty then
 }
 
 // c08Fresh: what the same attempt does in a process that ran the history without the attempts on invalid
@@ -212,6 +213,9 @@ type c08Child struct {
 	probeMu     sync.Mutex
 	probes      map[int]int // step of the configuration (from the probe path) -> probes seen
 	loaderErr   bool        // the registered Casketfile loader returns an error
+	// QUIC histories (c08q.go): a port whose UDP side is held by the harness while its TCP side is free
+	udpHold *net.UDPConn
+	udpPort int
 }
 
 func (ch *c08Child) casketfilePath() string { return filepath.Join(ch.dir, "Casketfile") }
@@ -362,6 +366,9 @@ func (ch *c08Child) render(c *c08Cfg, step int) string {
 		key, bind := fmt.Sprintf("127.0.0.%d:0", a), fmt.Sprintf("127.0.0.%d", a)
 		if a == 9 {
 			key, bind = fmt.Sprintf("127.0.0.1:%d", ch.busyPort), "127.0.0.1"
+		}
+		if a == 8 {
+			key, bind = fmt.Sprintf("127.0.0.1:%d", ch.udpPort), "127.0.0.1"
 		}
 		lines := []string{
 			"root " + filepath.Join(ch.dir, "root"),
@@ -1486,6 +1493,9 @@ func c08Prepare(in *c08In) {
 }
 
 func c08RunOne(in *c08In) Result {
+	if in.Q != nil {
+		return c08RunQuic(in)
+	}
 	if in.Ov != nil {
 		return c08RunOverlap(in)
 	}
@@ -2099,6 +2109,7 @@ func c08Gen(r *Rand, tier string) []interface{} {
 		ins = append(ins, c08Random(r, maxLen, k))
 	}
 	ins = append(ins, c08GenOverlap(r, tier)...)
+	ins = append(ins, c08GenQuic(r, tier)...)
 	out := make([]interface{}, len(ins))
 	for i, in := range ins {
 		out[i] = in
@@ -2110,7 +2121,7 @@ func c08Gen(r *Rand, tier string) []interface{} {
 func init() {
 	register(&Property{
 		ID: "C08", Imports: "V.Lib V.C08_Model", Judge: "judge", Shard: 40,
-		Rule:   "overlapping attempts: a gated plugin directive holds attempt B (load / reload of a running instance; refused at the gated directive / at Listen / by a startup callback, or accepted) inside its setup while 0-3 other attempts run to their end (load, reload of another running instance, refused reload, stop; some with `on` hooks), casket.Instances() observed before B / B held / after the inner attempts / after B returned, then casket.Stop() and which sites still answer; histories of load (casket.Start) / validate / reload (Instance.Restart) / SIGUSR1 attempts and htpasswd-file rewrites, run in-process in a fresh child of the harness with a watchdog per attempt: templates {load, validate, reload, SIGUSR1, API-driven execute} x {syntax error, unknown directive, missing import, Casketfile removed / unreadable / loader error at that moment (SIGUSR1: at signal time, with a running configuration that has `on` hooks), bad argument early/mid/late/after proxy in directive order, bad `on` line after good ones, htpasswd missing/malformed/without the user, failing startup callback, port in use alone/after another listener, a plugin whose setup panics during a reload} x feature sets (on, log roller, basicauth htpasswd, proxy with a health check of a loopback backend, two listeners), each followed by a valid load/reload using the same files; the SAME invalid configuration attempted two and three times with the environment untouched (every pair / triple of modes; htpasswd files that are missing, lack the user, or have a line the parser rejects - no separator, a bcrypt hash, a {SHA} hash that is not base64 - behind / in front of the configured user and between good lines; a sample of the other faults, all of them in the thorough tier), each attempt on an invalid configuration that comes after another one held against the same attempt made by a process that did not see the earlier failures (result and class of the error message); every kind of failing startup callback (`log` / `errors` output file in a missing directory, OnStartup / OnFirstStartup callback of a plugin directive) in load / reload / SIGUSR1 followed by >= 2 further steps (valid reload, valid reload the other way, reload refused at Listen keeping the running address, valid reload) with casket.Instances() observed after every step (length, configuration of every entry, which entries serve); plus random histories (<= 6 steps quick, <= 10 thorough); every history is also run with the invalid attempts erased; after every step the events are emitted (which hooks run) and the backend is watched (whose workers probe); non-trivial = at least one attempt failed and the history ran to its end",
+		Rule:   "QUIC flag on (httpserver.QUIC): histories of load / validate / execute / reload / SIGUSR1 over configurations with a server whose UDP port is in use while its TCP port is free (Listen succeeds, ListenPacket fails) or whose TCP port is in use while its UDP port is free, as only / first / last / middle server, the refused attempt repeated, then a valid attempt, the release of the ports and a load of the refused configuration, LISTEN and UDP sockets with their descriptors observed after every step; overlapping attempts: a gated plugin directive holds attempt B (load / reload of a running instance; refused at the gated directive / at Listen / by a startup callback, or accepted) inside its setup while 0-3 other attempts run to their end (load, reload of another running instance, refused reload, stop; some with `on` hooks), casket.Instances() observed before B / B held / after the inner attempts / after B returned, then casket.Stop() and which sites still answer; histories of load (casket.Start) / validate / reload (Instance.Restart) / SIGUSR1 attempts and htpasswd-file rewrites, run in-process in a fresh child of the harness with a watchdog per attempt: templates {load, validate, reload, SIGUSR1, API-driven execute} x {syntax error, unknown directive, missing import, Casketfile removed / unreadable / loader error at that moment (SIGUSR1: at signal time, with a running configuration that has `on` hooks), bad argument early/mid/late/after proxy in directive order, bad `on` line after good ones, htpasswd missing/malformed/without the user, failing startup callback, port in use alone/after another listener, a plugin whose setup panics during a reload} x feature sets (on, log roller, basicauth htpasswd, proxy with a health check of a loopback backend, two listeners), each followed by a valid load/reload using the same files; the SAME invalid configuration attempted two and three times with the environment untouched (every pair / triple of modes; htpasswd files that are missing, lack the user, or have a line the parser rejects - no separator, a bcrypt hash, a {SHA} hash that is not base64 - behind / in front of the configured user and between good lines; a sample of the other faults, all of them in the thorough tier), each attempt on an invalid configuration that comes after another one held against the same attempt made by a process that did not see the earlier failures (result and class of the error message); every kind of failing startup callback (`log` / `errors` output file in a missing directory, OnStartup / OnFirstStartup callback of a plugin directive) in load / reload / SIGUSR1 followed by >= 2 further steps (valid reload, valid reload the other way, reload refused at Listen keeping the running address, valid reload) with casket.Instances() observed after every step (length, configuration of every entry, which entries serve); plus random histories (<= 6 steps quick, <= 10 thorough); every history is also run with the invalid attempts erased; after every step the events are emitted (which hooks run) and the backend is watched (whose workers probe); non-trivial = at least one attempt failed and the history ran to its end",
 		Gen:    c08Gen,
 		Decode: func(raw json.RawMessage) (interface{}, error) { in := &c08In{}; return in, json.Unmarshal(raw, in) },
 		Run:    c08Run,
